@@ -1,1 +1,231 @@
-//! (reference for idea: to be written)
+//! IDEA, written from X. Lai, J. Massey, S. Murphy, "Markov ciphers and differential cryptanalysis"
+//! (EUROCRYPT '91, section 6 "The IDEA cipher", fig. 2) and X. Lai, "On the Design and Security of Block
+//! Ciphers" (ETH Series in Information Processing vol. 1, 1992), chapter 3:
+//!
+//! * three group operations on 16-bit subblocks: XOR, addition modulo 2^16 (`add`), and multiplication
+//!   modulo 2^16 + 1 where the all-zero subblock stands for 2^16 (`mul`);
+//! * 8 rounds: the four subblocks are combined with Z1..Z4 (mul, add, add, mul), the MA structure
+//!   (multiplication-addition, keyed by Z5, Z6) is computed on the XORs of the two pairs, its two outputs are
+//!   XORed back, and the involutory permutation P_I swaps the two middle subblocks;
+//! * the output transformation (Z49..Z52) follows round 8 *without* P_I;
+//! * key schedule: the 128-bit user key is split into Z1..Z8 (big-endian 16-bit), then cyclically shifted
+//!   left by 25 bits and split again, until 52 subkeys are taken;
+//! * decryption is the same computation with the subkeys of table 3.2 of the thesis:
+//!   round r (1..8) uses (Z^-1[10-r](1), -Z[10-r](3), -Z[10-r](2), Z^-1[10-r](4), Z[9-r](5), Z[9-r](6)) with the
+//!   two additive keys NOT exchanged for r = 1 and for the output transformation.
+//!
+//! Blocks and keys are big-endian sequences of 16-bit subblocks.
+
+pub const ROUNDS: usize = 8;
+pub const NSUB: usize = 52;
+
+/// Multiplication modulo the prime 2^16 + 1; the subblock 0 represents 2^16.
+pub const fn mul(a: u16, b: u16) -> u16 {
+    let x: u64 = if a == 0 { 0x10000 } else { a as u64 };
+    let y: u64 = if b == 0 { 0x10000 } else { b as u64 };
+    let p = (x * y) % 0x10001;
+    // p is in 1..=2^16 (the group has no zero); 2^16 is written as the all-zero subblock
+    (p & 0xffff) as u16
+}
+
+/// Addition modulo 2^16.
+pub const fn add(a: u16, b: u16) -> u16 {
+    (((a as u32) + (b as u32)) % 0x10000) as u16
+}
+
+/// Additive inverse modulo 2^16.
+pub const fn add_inv(a: u16) -> u16 {
+    ((0x10000 - (a as u32)) % 0x10000) as u16
+}
+
+/// Multiplicative inverse in the group of `mul`, by Fermat: a^(p-2) with p = 2^16 + 1, p - 2 = 0xFFFF
+/// (sixteen one bits: square-and-multiply with a constant number of steps).
+pub const fn mul_inv(a: u16) -> u16 {
+    let mut r: u16 = 1;
+    let mut i = 0;
+    while i < 16 {
+        r = mul(r, r);
+        r = mul(r, a);
+        i += 1;
+    }
+    r
+}
+
+/// The 52 encryption subkeys Z1..Z52 (index 0..51).
+pub const fn enc_subkeys(key: &[u8; 16]) -> [u16; NSUB] {
+    // the key register as a 128-bit number, most significant bit first
+    let mut reg: u128 = 0;
+    let mut i = 0;
+    while i < 16 {
+        reg = (reg << 8) | key[i] as u128;
+        i += 1;
+    }
+    let mut z = [0u16; NSUB];
+    let mut n = 0;
+    while n < NSUB {
+        let pos = n % 8; // position inside the current register contents
+        z[n] = (reg >> (112 - 16 * pos)) as u16;
+        if pos == 7 {
+            reg = reg.rotate_left(25);
+        }
+        n += 1;
+    }
+    z
+}
+
+/// Decryption subkeys from encryption subkeys (table 3.2 of Lai's thesis).
+pub const fn dec_subkeys(z: &[u16; NSUB]) -> [u16; NSUB] {
+    let mut d = [0u16; NSUB];
+    // round r = 1..=9 (9 = output transformation) uses the keys of encryption "round" 10 - r
+    let mut r = 1;
+    while r <= 9 {
+        let src = 6 * (9 - r); // index of Z[10-r](1)
+        let dst = 6 * (r - 1);
+        d[dst] = mul_inv(z[src]);
+        d[dst + 3] = mul_inv(z[src + 3]);
+        if r == 1 || r == 9 {
+            d[dst + 1] = add_inv(z[src + 1]);
+            d[dst + 2] = add_inv(z[src + 2]);
+        } else {
+            d[dst + 1] = add_inv(z[src + 2]);
+            d[dst + 2] = add_inv(z[src + 1]);
+        }
+        if r <= 8 {
+            let ma = 6 * (8 - r) + 4; // Z[9-r](5)
+            d[dst + 4] = z[ma];
+            d[dst + 5] = z[ma + 1];
+        }
+        r += 1;
+    }
+    d
+}
+
+/// The MA (multiplication-addition) structure: inputs (p, q), keys (z5, z6), outputs (t1, t2) where
+/// t1 is XORed onto subblocks 1 and 3 and t2 onto subblocks 2 and 4.
+pub const fn ma(p: u16, q: u16, z5: u16, z6: u16) -> (u16, u16) {
+    let u = mul(p, z5);
+    let t1 = mul(add(q, u), z6);
+    let t2 = add(u, t1);
+    (t1, t2)
+}
+
+/// One round *without* the trailing permutation P_I: (X1..X4) and six subkeys.
+pub const fn round_no_swap(x: [u16; 4], k: &[u16; NSUB], r: usize) -> [u16; 4] {
+    let y1 = mul(x[0], k[6 * r]);
+    let y2 = add(x[1], k[6 * r + 1]);
+    let y3 = add(x[2], k[6 * r + 2]);
+    let y4 = mul(x[3], k[6 * r + 3]);
+    let (t1, t2) = ma(y1 ^ y3, y2 ^ y4, k[6 * r + 4], k[6 * r + 5]);
+    [y1 ^ t1, y2 ^ t2, y3 ^ t1, y4 ^ t2]
+}
+
+/// P_I: exchange of the two middle subblocks.
+pub const fn swap_middle(x: [u16; 4]) -> [u16; 4] {
+    [x[0], x[2], x[1], x[3]]
+}
+
+pub const fn output_transform(x: [u16; 4], k: &[u16; NSUB]) -> [u16; 4] {
+    [mul(x[0], k[48]), add(x[1], k[49]), add(x[2], k[50]), mul(x[3], k[51])]
+}
+
+/// The IDEA computation with a given list of 52 subkeys (used for both directions).
+pub const fn crypt_words(x: [u16; 4], k: &[u16; NSUB]) -> [u16; 4] {
+    let mut s = x;
+    let mut r = 0;
+    while r < ROUNDS {
+        s = round_no_swap(s, k, r);
+        if r + 1 < ROUNDS {
+            s = swap_middle(s);
+        }
+        r += 1;
+    }
+    output_transform(s, k)
+}
+
+pub const fn block_words(b: &[u8; 8]) -> [u16; 4] {
+    [
+        ((b[0] as u16) << 8) | b[1] as u16,
+        ((b[2] as u16) << 8) | b[3] as u16,
+        ((b[4] as u16) << 8) | b[5] as u16,
+        ((b[6] as u16) << 8) | b[7] as u16,
+    ]
+}
+pub const fn words_block(w: [u16; 4]) -> [u8; 8] {
+    [
+        (w[0] >> 8) as u8, w[0] as u8, (w[1] >> 8) as u8, w[1] as u8,
+        (w[2] >> 8) as u8, w[2] as u8, (w[3] >> 8) as u8, w[3] as u8,
+    ]
+}
+
+/// The block computation on bytes with a given subkey list.
+pub const fn crypt(block: &[u8; 8], k: &[u16; NSUB]) -> [u8; 8] {
+    words_block(crypt_words(block_words(block), k))
+}
+
+pub const fn encrypt(key: &[u8; 16], block: &[u8; 8]) -> [u8; 8] {
+    crypt(block, &enc_subkeys(key))
+}
+pub const fn decrypt(key: &[u8; 16], block: &[u8; 8]) -> [u8; 8] {
+    crypt(block, &dec_subkeys(&enc_subkeys(key)))
+}
+
+#[cfg(test)]
+mod tests {
+    use super::*;
+
+    fn h8(x: u64) -> [u8; 8] { x.to_be_bytes() }
+    fn h16(x: u128) -> [u8; 16] { x.to_be_bytes() }
+
+    // The worked example of Lai's thesis (also Schneier, Applied Cryptography 2nd ed., and the PGP idea.c self
+    // test): key = (1,2,3,4,5,6,7,8), plaintext = (0,1,2,3) -> ciphertext (11FB, ED2B, 0198, 6DE5).
+    #[test]
+    fn lai_example() {
+        let key = h16(0x0001_0002_0003_0004_0005_0006_0007_0008);
+        let pt = h8(0x0000_0001_0002_0003);
+        let ct = h8(0x11FB_ED2B_0198_6DE5);
+        assert_eq!(encrypt(&key, &pt), ct);
+        assert_eq!(decrypt(&key, &ct), pt);
+        // the subkey table of that example (first and last encryption rows, first decryption row)
+        let z = enc_subkeys(&key);
+        assert_eq!(&z[0..8], &[1, 2, 3, 4, 5, 6, 7, 8]);
+        assert_eq!(&z[8..16], &[0x0400, 0x0600, 0x0800, 0x0a00, 0x0c00, 0x0e00, 0x1000, 0x0200]);
+        assert_eq!(&z[48..52], &[0x0080, 0x00c0, 0x0100, 0x0140]);
+        let d = dec_subkeys(&z);
+        assert_eq!(&d[0..6], &[0xfe01, 0xff40, 0xff00, 0x659a, 0xc000, 0xe001]);
+        assert_eq!(&d[48..52], &[0x0001, 0xfffe, 0xfffd, 0xc001]);
+    }
+
+    // NESSIE Idea-128-64.verified.test-vectors (sets 1-3, first vectors; set 8 decryption)
+    #[test]
+    fn nessie() {
+        let cases: [(u128, u64, u64); 6] = [
+            (0x80000000_00000000_00000000_00000000, 0x0000000000000000, 0xB1F5F7F87901370F),
+            (0x40000000_00000000_00000000_00000000, 0x0000000000000000, 0xB3927DFFB6358626),
+            (0x00000000_00000000_00000000_00000000, 0x8000000000000000, 0x8001000180008000),
+            (0x00000000_00000000_00000000_00000000, 0x0000000000000000, 0x0001000100000000),
+            (0x01010101_01010101_01010101_01010101, 0x0101010101010101, 0xE3F8AFF7A3795615),
+            (0x00010203_04050607_08090A0B_0C0D0E0F, 0x0011223344556677, 0xF526AB9A62C0D258),
+        ];
+        for (k, p, c) in cases {
+            assert_eq!(encrypt(&h16(k), &h8(p)), h8(c), "key {:032x}", k);
+            assert_eq!(decrypt(&h16(k), &h8(c)), h8(p));
+        }
+    }
+
+    #[test]
+    fn group_laws() {
+        // mul is multiplication in Z*_65537 with 0 <-> 2^16, mul_inv is its inverse, exhaustively
+        let mut a: u32 = 0;
+        while a < 0x10000 {
+            let i = mul_inv(a as u16);
+            assert_eq!(mul(a as u16, i), 1);
+            assert_eq!(add(a as u16, add_inv(a as u16)), 0);
+            a += 1;
+        }
+        assert_eq!(mul(0, 0), 1); // (-1)(-1) = 1
+        assert_eq!(mul(0, 1), 0);
+        assert_eq!(mul(2, 0x8000), 0); // 2 * 2^15 = 2^16
+        assert_eq!(mul_inv(0), 0);
+        assert_eq!(mul_inv(1), 1);
+    }
+}
